@@ -362,6 +362,7 @@ class model_sampler:
 
     def __init__(self):
         self.seen = []
+        self.mode = None  # None | "dense" | "sparse": ask for a model with more / fewer true boolean keys than any handed out so far
 
     def __enter__(self):
         import cspuz
@@ -383,6 +384,14 @@ class model_sampler:
                         lits.append(v != val)
                 if lits:
                     solver.ensure(cspuz.fold_or(lits))
+            bkeys = [v for v in keys if isinstance(v, BoolVar)]
+            counts = [sum(1 for v, val in zip(keys, prev) if isinstance(v, BoolVar) and val is True) for prev in sampler.seen if len(prev) == len(keys)]
+            if sampler.mode and bkeys and counts:
+                # extremes break different rules: dense models run into 'no 2x2 / not adjacent', sparse ones into 'at least / connected'
+                if sampler.mode == "dense":
+                    solver.ensure(cspuz.count_true(bkeys) >= max(counts) + 1)
+                else:
+                    solver.ensure(cspuz.count_true(bkeys) <= min(counts) - 1)
             ok = solver.find_answer(backend)
             if ok:
                 sampler.seen.append([v.sol for v in keys])
